@@ -450,6 +450,11 @@ type bvar struct {
 	alias ast.Expr // Go lvalue this local is an alias of (reference semantics)
 	bound bool     // for aliases: a Lean binding with the current value exists
 	root  bool     // receiver or pointer parameter (mutations are returned)
+	// a local slice `x := base[lo:]` over a field path: element writes through x go to base[lo+i], and
+	// the Lean value of x is re-read from base after every write to base's elements
+	view   ast.Expr
+	viewLo string // Lean name holding the frozen `lo` ("" = 0)
+	dead   bool   // base was re-assigned as a whole (or its root changed by a call): x may not be used any more
 }
 
 type bctx struct {
@@ -561,6 +566,9 @@ func (c *bctx) expr(e ast.Expr) (string, *gty) {
 		if v, ok := c.vars[x.Name]; ok {
 			if v.alias != nil && !v.bound {
 				return c.expr(v.alias)
+			}
+			if v.dead {
+				return c.bad(e, "use of a local slice after the slice it was taken from was re-assigned")
 			}
 			return x.Name, v.ty
 		}
@@ -819,11 +827,16 @@ func (c *bctx) read(path ast.Expr) (string, *gty) { return c.expr(path) }
 
 // setPath emits the lets that store `v` at the (resolved) path
 func (c *bctx) setPath(path ast.Expr, v string, out *strings.Builder, ind string) {
+	c.setPath0(path, v, out, ind)
+	c.viewsAfterWrite(path, out, ind)
+}
+
+func (c *bctx) setPath0(path ast.Expr, v string, out *strings.Builder, ind string) {
 	switch x := path.(type) {
 	case *ast.ParenExpr:
-		c.setPath(x.X, v, out, ind)
+		c.setPath0(x.X, v, out, ind)
 	case *ast.StarExpr:
-		c.setPath(x.X, v, out, ind)
+		c.setPath0(x.X, v, out, ind)
 	case *ast.Ident:
 		vi, ok := c.vars[x.Name]
 		if !ok {
@@ -831,7 +844,7 @@ func (c *bctx) setPath(path ast.Expr, v string, out *strings.Builder, ind string
 			return
 		}
 		if vi.alias != nil {
-			c.setPath(vi.alias, v, out, ind)
+			c.setPath0(vi.alias, v, out, ind)
 			return
 		}
 		fmt.Fprintf(out, "%slet %s := %s\n", ind, x.Name, v)
@@ -848,10 +861,21 @@ func (c *bctx) setPath(path ast.Expr, v string, out *strings.Builder, ind string
 	case *ast.SelectorExpr:
 		bs, bt := c.read(x.X)
 		c.typeOfStructField(bt, x.Sel.Name, path)
-		c.setPath(x.X, "({ ("+bs+") with "+x.Sel.Name+" := "+v+" } : "+c.b.leanType(bt)+")", out, ind)
+		c.setPath0(x.X, "({ ("+bs+") with "+x.Sel.Name+" := "+v+" } : "+c.b.leanType(bt)+")", out, ind)
 	case *ast.IndexExpr:
 		if id, ok := x.X.(*ast.Ident); ok {
-			if v, ok := c.vars[id.Name]; ok && v.slice {
+			if vw, ok := c.vars[id.Name]; ok && vw.slice {
+				if vw.view != nil && !vw.dead {
+					// a view of a field: the write goes to the field's element, then the views are re-read
+					var idx ast.Expr = x.Index
+					if vw.viewLo != "" {
+						idx = &ast.BinaryExpr{X: ast.NewIdent(vw.viewLo), Op: token.ADD, Y: x.Index}
+					}
+					target := &ast.IndexExpr{X: vw.view, Index: idx}
+					c.setPath0(target, v, out, ind)
+					c.viewsAfterWrite(target, out, ind)
+					return
+				}
 				// slices are translated as values; an element write through a second slice header over the
 				// same backing array would be lost
 				c.bad(path, "element write through a local slice that aliases another slice")
@@ -862,9 +886,9 @@ func (c *bctx) setPath(path ast.Expr, v string, out *strings.Builder, ind string
 		is, _ := c.expr(x.Index)
 		switch bt.deref().kind {
 		case "slice":
-			c.setPath(x.X, "(("+bs+").set ("+is+") ("+v+"))", out, ind)
+			c.setPath0(x.X, "(("+bs+").set ("+is+") ("+v+"))", out, ind)
 		case "map":
-			c.setPath(x.X, "(AL.insert ("+bs+") ("+is+") ("+v+"))", out, ind)
+			c.setPath0(x.X, "(AL.insert ("+bs+") ("+is+") ("+v+"))", out, ind)
 		default:
 			c.bad(path, "indexed assignment")
 		}
@@ -970,6 +994,17 @@ func (c *bctx) assignedBy(emit func()) []string {
 }
 
 func (c *bctx) markAssigned(names []string) {
+	in := map[string]bool{}
+	for _, n := range names {
+		in[n] = true
+	}
+	for _, n := range names {
+		for m, a := range c.vars {
+			if a.view != nil && rootOf(a.view) == n && !in[m] {
+				a.dead = true
+			}
+		}
+	}
 	for _, n := range names {
 		c.assigned[n] = true
 		if v, ok := c.vars[n]; ok && v.root {
@@ -984,12 +1019,67 @@ func (c *bctx) markAssigned(names []string) {
 }
 
 // define a new local
+// refreshView re-reads the Lean value of the local slice `name` from the slice it is a view of
+func (c *bctx) refreshView(name string, out *strings.Builder, ind string, reassigned bool) {
+	v := c.vars[name]
+	e := &ast.SliceExpr{X: v.view}
+	if v.viewLo != "" {
+		e.Low = ast.NewIdent(v.viewLo)
+	}
+	s, _ := c.expr(e)
+	fmt.Fprintf(out, "%slet %s := %s\n", ind, name, s)
+	if reassigned {
+		c.assigned[name] = true
+	}
+}
+
+// viewsAfterWrite: `path` was assigned.  Views of a slice that was re-assigned as a whole die; views of a
+// slice one of whose elements was written are re-read.
+func (c *bctx) viewsAfterWrite(path ast.Expr, out *strings.Builder, ind string) {
+	ps := src(path)
+	var names []string
+	for n, v := range c.vars {
+		if v.view != nil && !v.dead {
+			names = append(names, n)
+		}
+	}
+	sort.Strings(names)
+	for _, n := range names {
+		v := c.vars[n]
+		bs := src(v.view)
+		switch {
+		case ps == bs || strings.HasPrefix(bs, ps+".") || strings.HasPrefix(bs, ps+"["):
+			v.dead = true
+		case strings.HasPrefix(ps, bs+"["):
+			c.refreshView(n, out, ind, true)
+		}
+	}
+}
+
 func (c *bctx) define(name string, rhs ast.Expr, out *strings.Builder, ind string) {
 	if ce, ok := rhs.(*ast.CallExpr); ok && c.bindCall(name, ce, out, ind) {
 		return
 	}
 	if name == "_" {
 		return
+	}
+	if sl, ok := rhs.(*ast.SliceExpr); ok && sl.High == nil && sl.Max == nil {
+		base := c.resolve(sl.X)
+		if _, isSel := base.(*ast.SelectorExpr); isSel && c.vars[rootOf(base)] != nil {
+			_, bt := c.expr(base)
+			if bt != nil && bt.kind == "slice" {
+				lo := ""
+				if sl.Low != nil {
+					ls, _ := c.expr(sl.Low)
+					lo = c.fresh("lo")
+					fmt.Fprintf(out, "%slet %s := %s\n", ind, lo, ls)
+					c.vars[lo] = &bvar{ty: tyInt}
+				}
+				c.vars[name] = &bvar{ty: bt, slice: true, view: base, viewLo: lo}
+				c.refreshView(name, out, ind, false)
+				return
+			}
+		}
 	}
 	s, t := c.expr(rhs)
 	// reference semantics: pointer or map taken from an addressable path
@@ -1913,6 +2003,71 @@ var bookFragments = map[bookFnKey]bookFragment{
 	{"observerManager", "AddObserver"}:    {"m.totalCount++", "aggregates"},
 }
 
+// fragmentPrelude: the tail of a function may use locals the head defined.  A definition `x := p.f.g`
+// (a field path) at the top level of the head is carried into the tail when the tail mentions `x`, `x`
+// is defined once and never assigned again, and no statement of the head after it assigns to a field
+// named like the last field of the path (which rules out a change of the value through an alias).
+func fragmentPrelude(head, tail []ast.Stmt) []*ast.AssignStmt {
+	used := map[string]bool{}
+	for _, st := range tail {
+		ast.Inspect(st, func(n ast.Node) bool {
+			if id, ok := n.(*ast.Ident); ok {
+				used[id.Name] = true
+			}
+			return true
+		})
+	}
+	isPath := func(e ast.Expr) bool {
+		for {
+			switch x := e.(type) {
+			case *ast.SelectorExpr:
+				e = x.X
+			case *ast.Ident:
+				return true
+			default:
+				return false
+			}
+		}
+	}
+	var out []*ast.AssignStmt
+	for i, st := range head {
+		as, ok := st.(*ast.AssignStmt)
+		if !ok || as.Tok != token.DEFINE || len(as.Lhs) != 1 || len(as.Rhs) != 1 {
+			continue
+		}
+		id, ok := as.Lhs[0].(*ast.Ident)
+		sel, ok2 := as.Rhs[0].(*ast.SelectorExpr)
+		if !ok || !ok2 || !used[id.Name] || !isPath(sel) {
+			continue
+		}
+		clean := true
+		for _, later := range head[i+1:] {
+			ast.Inspect(later, func(n ast.Node) bool {
+				var lhs []ast.Expr
+				switch x := n.(type) {
+				case *ast.AssignStmt:
+					lhs = x.Lhs
+				case *ast.IncDecStmt:
+					lhs = []ast.Expr{x.X}
+				}
+				for _, l := range lhs {
+					if src(l) == id.Name {
+						clean = false
+					}
+					if ls, ok := l.(*ast.SelectorExpr); ok && ls.Sel.Name == sel.Sel.Name {
+						clean = false
+					}
+				}
+				return true
+			})
+		}
+		if clean {
+			out = append(out, as)
+		}
+	}
+	return out
+}
+
 var leanKeywords = map[string]bool{"by": true, "at": true, "do": true, "fun": true, "end": true, "from": true, "have": true,
 	"show": true, "then": true, "in": true, "let": true, "match": true, "open": true, "with": true, "where": true,
 	"theorem": true, "def": true, "instance": true, "structure": true, "namespace": true, "section": true, "variable": true,
@@ -1953,6 +2108,7 @@ func (b *book) translate(key bookFnKey) *bookFnInfo {
 	}
 	b.files[key] = file
 	bodyStmts := fd.Body.List
+	var prelude []*ast.AssignStmt
 	if fr, ok := bookFragments[key]; ok {
 		info.leanName += "_" + fr.suffix
 		at := -1
@@ -1966,6 +2122,7 @@ func (b *book) translate(key bookFnKey) *bookFnInfo {
 			problem("%s.%s: the statement `%s` after which the translated tail starts was not found", key.recv, key.name, fr.after)
 			bodyStmts = nil
 		} else {
+			prelude = fragmentPrelude(bodyStmts[:at+1], bodyStmts[at+1:])
 			bodyStmts = bodyStmts[at+1:]
 		}
 	}
@@ -2040,6 +2197,9 @@ func (b *book) translate(key bookFnKey) *bookFnInfo {
 	// mutated): translate with placeholders and patch.
 	var body strings.Builder
 	k := bcont{fall: "RESULT[]", ret: func(vals []string) string { return "RESULT[" + strings.Join(vals, " ;; ") + "]" }}
+	for _, st := range prelude {
+		c.define(st.Lhs[0].(*ast.Ident).Name, st.Rhs[0], &body, "  ")
+	}
 	c.block(bodyStmts, k, &body, "  ")
 
 	info.mutRecv = c.recv != "" && c.mutated[c.recv]
